@@ -5,7 +5,8 @@
    Proofs/ConformingProofs (silence of the tokenizer on conforming statement lines). *)
 From NV Require Import Model.Base Model.Diag Model.Lexer Model.Errors Model.Cli Spec.CConst Spec.Conforming
   Gen.ErrOrder Gen.MainExit Gen.Emitters Gen.HeaderRe Gen.HeaderSM Model.Header Model.GuardBase Gen.Guard Model.Guard
-  Proofs.EmittersProofs Proofs.ConformingProofs Proofs.ConformingChecks Proofs.ConformingCounters.
+  Proofs.EmittersProofs Proofs.ConformingProofs Proofs.ConformingChecks Proofs.ConformingCounters Proofs.ConformingSpacing
+  Proofs.ConformingControl Proofs.ConformingTraced.
 From NV Require Import Model.RuleChecks Gen.RuleChecks Gen.MoreChecks Proofs.RuleChecksProofs Proofs.RuleChecksProofs2
   Proofs.MoreChecksProofs.
 From NV Require Props.C04 Props.C11 Props.C13 Props.C14.
@@ -86,8 +87,8 @@ Definition C01_checks_silent_statement : Prop :=
   (* CheckFunctionsCount (whole check: at most 5 definitions in the file) and the counters of CheckBrace (25 lines),
      CheckVariableDeclaration (5 variables), CheckFuncDeclaration (4 parameters): Proofs/ConformingCounters.v *)
   counters_silent_statement /\
-  (* --- partial checks --- *)
-  (* CheckLineIndent: every line but the `{` line (skipped statements; k tabs = the scope's indentation; `}` one tab less) *)
+  (* CheckLineIndent (whole check): skipped statements; k tabs = the scope's indentation; `}` one tab less; `{` one tab less when it
+     follows its control statement / function header / type declaration *)
   (forall toks scope v h1 rest, v_history v = h1 :: rest -> str_in h1 indent_skipped = true -> check_line_indent toks scope v = Ok ([], v)) /\
   (forall toks scope v k h1 rest t0, v_history v = h1 :: rest -> str_in h1 indent_skipped = false -> leading toks [ty_tab] k ->
      (forall t, peek toks (Z.of_nat k) = Some t -> str_in (t_type t) [s "LBRACE"; s "RBRACE"] = false) ->
@@ -96,9 +97,22 @@ Definition C01_checks_silent_statement : Prop :=
   (forall toks scope v k h1 rest t0 tb, v_history v = h1 :: rest -> str_in h1 indent_skipped = false -> leading toks [ty_tab] k ->
      peek toks (Z.of_nat k) = Some tb -> t_type tb = s "RBRACE" -> peek toks 0 = Some t0 -> v_scope_indent v = (Z.of_nat k + 1)%Z ->
      exists v', check_line_indent toks scope v = Ok ([], v')) /\
-  (* CheckExpressionStatement: statements without `return` *)
+  (forall toks scope v k h1 rest t0 tb, v_history v = h1 :: rest -> str_in h1 indent_skipped = false -> leading toks [ty_tab] k ->
+     peek toks (Z.of_nat k) = Some tb -> t_type tb = s "LBRACE" -> peek toks 0 = Some t0 ->
+     v_scope_indent v = (Z.of_nat k + (if brace_parent rest then 1 else 0))%Z ->
+     exists v', check_line_indent toks scope v = Ok ([], v')) /\
+  (* CheckExpressionStatement (whole check, `return` included: expr_pos_ok / return_ok) *)
   (forall toks scope v (n : nat), (n < List.length toks + 2)%nat -> (forall j, (0 <= j < Z.of_nat n)%Z -> expr_pos_ok toks j = true) ->
      is_false (checkl toks (Z.of_nat n) [s "SEMI_COLON"; s "NEWLINE"]) = false -> check_expression_statement toks scope v = Ok ([], v)) /\
+  (* CheckSpacing (whole check): every position of the statement slice satisfies sp_ok *)
+  (forall toks scope v, v_history v <> [] -> (forall j, (0 <= j < slice_len toks scope)%Z -> sp_ok toks j = true) ->
+     check_spacing toks scope v = Ok ([], v)) /\
+  (* CheckControlStatement (the translated part: WRONG_SCOPE, EXP_NEWLINE, FORBIDDEN_CS, ASSIGN_IN_CONTROL) *)
+  (forall toks scope v n, str_eqb (v_scope_name v) (s "GlobalScope") = false -> (0 <= n <= zlen toks)%Z ->
+     (forall j, (0 <= j < n)%Z -> cs_pos_ok toks n j = true) -> is_false (check1 toks n (s "NEWLINE")) = false ->
+     check_control_statement toks scope v = Ok ([], v)) /\
+  (* the same with scope name / indentation derived from the scope-trace model (Proofs/ConformingTraced.v) *)
+  traced_silent_statement /\
   (* CheckUtypeDeclaration (translated part), in a header *)
   (forall toks scope ftype v, str_eqb ftype (s ".c") = false -> str_in (v_scope_name v) [s "GlobalScope"; s "UserDefinedType"] = true ->
      check_utype_forbidden toks scope ftype v = Ok ([], v)).
@@ -110,7 +124,8 @@ Proof.
   split; [exact many_instructions_silent|]. split; [exact empty_line_silent_on_statement|].
   split; [exact empty_line_silent_on_empty_line|]. split; [exact counters_silent|].
   split; [exact line_indent_skipped|]. split; [exact line_indent_silent|]. split; [exact line_indent_rbrace_silent|].
-  split; [exact expression_statement_silent|]. exact utype_silent_in_header.
+  split; [exact line_indent_lbrace_silent|]. split; [exact expression_statement_silent|]. split; [exact spacing_silent|].
+  split; [exact control_statement_silent|]. split; [exact traced_silent|]. exact utype_silent_in_header.
 Qed.
 
 Definition C01_partial_K_statement : Prop :=
